@@ -126,10 +126,11 @@ func getArrivalTimeOffset(base time.Time, arrival time.Time) uint16 {
 	if base.Before(arrival) {
 		return 0x1FFF
 	}
-	ato := uint16(base.Sub(arrival).Seconds() * 1024.0)
-	if ato > 0x1FFD {
+	// Compare before converting: uint16() of an offset of 64 seconds or more wraps around.
+	ato := base.Sub(arrival).Seconds() * 1024.0
+	if ato >= 0x1FFE {
 		return 0x1FFE
 	}
 
-	return ato
+	return uint16(ato)
 }
